@@ -50,6 +50,13 @@ Expected(ev) ==
     \* broadcast_arrays(A, A with its fields declared in the opposite order): fields pair by name, so the second output,
     \* read back in A's field order, is A (C04)
     [] ev.op = "bcperm" -> Ok(ev.v)
+    \* A[items] through the Python layer's __getitem__ (C01): the same law as the C++ getitem
+    [] ev.op = "slice" -> VGetItem(ev.v, ev.T, a.items)
+    \* A[argsort(A, axis=1)] is sort(A, axis=1): a jagged index produced by the library itself (C01, C06)
+    \* (stated for lists of numbers only: with fixed-size dimensions the index follows NumPy's rules instead, with more
+    \*  levels it is not a law, and argsort's own deviations on option-type leaves are findings of C06)
+    [] ev.op = "sortbyarg" -> IF ev.T.k = "var" /\ ev.T.x.k = "num" /\ Len(ev.v.xs) > 0
+                              THEN VSort(ev.v, ev.T, 1, 1, 0) ELSE Unspec
     [] ev.op = "concat1" -> VConcatSelf1(ev.v, ev.T)
     [] ev.op = "zip" -> VZipSelf(ev.v, ev.T)
     [] ev.op = "unflatten" -> VUnflattenLaw(ev.v, ev.T)
